@@ -457,8 +457,15 @@ func (r *rewriter) memAccesses(stmt ast.Stmt) []ast.Stmt {
 			return
 		}
 		seen[k] = true
-		out = append(out, &ast.ExprStmt{X: call(rt("Mem"), r.site(e, "mem:"+b.String()),
-			&ast.UnaryExpr{Op: token.AND, X: e}, ast.NewIdent(fmt.Sprint(write)))})
+		// maps are identified by the map object itself (so that two structs
+		// sharing one map are seen as one location); other variables by address
+		var loc ast.Expr = &ast.UnaryExpr{Op: token.AND, X: e}
+		if t := r.info.TypeOf(e); t != nil {
+			if _, isMap := t.Underlying().(*types.Map); isMap {
+				loc = e
+			}
+		}
+		out = append(out, &ast.ExprStmt{X: call(rt("Mem"), r.site(e, "mem:"+b.String()), loc, ast.NewIdent(fmt.Sprint(write)))})
 	}
 	isTarget := func(e ast.Expr) bool {
 		switch x := e.(type) {
@@ -475,6 +482,13 @@ func (r *rewriter) memAccesses(stmt ast.Stmt) []ast.Stmt {
 			return isMap
 		case *ast.Ident:
 			v, ok := r.info.Uses[x].(*types.Var)
+			if ok && v.Pkg() == r.pkg && !v.IsField() {
+				// any variable of map type (local, parameter or package-level):
+				// it may alias a map that other tasks reach through a struct
+				if _, isMap := v.Type().Underlying().(*types.Map); isMap {
+					return true
+				}
+			}
 			if !ok || v.Pkg() != r.pkg || v.Parent() != r.pkg.Scope() {
 				return false
 			}
